@@ -39,7 +39,7 @@ PROPERTY = "C50"
 LEVEL = "exploration"
 ENGINE = "direct"
 TECHNIQUE = "totality + output scan of prettify_message over all views; DNS view round trip against an independent RFC 1035 decoder"
-BUDGET = {"quick": (2600, 17), "thorough": (200_000, 210)}
+BUDGET = {"quick": (2000, 14), "thorough": (200_000, 200)}
 WORKERS = {"quick": 2, "thorough": 16}
 REQUIRED = ["render_total", "render_no_control", "dns_reencode", "dns_roundtrip_equal"]
 RULE = (
